@@ -270,6 +270,13 @@ def points(case, ctx):
     eq = l.sm2_z256_point_equ(a, b)
     if A is not None and Bp is not None:
         ctx.check(eq == (1 if A == Bp else 0), "point_equ(A,B)=%d for A=%s B=%s" % (eq, A, Bp), "pt/equ")
+    else:
+        # the point at infinity in any of its forms - (l^2 : l^3 : 0) or (0 : 0 : 0), both produced by the library - equals itself in
+        # every other form and no finite point
+        forms = "%s vs %s" % ("finite" if A is not None else ("(0:0:0)" if ps["inf"] == 2 else "(l^2:l^3:0)"),
+                              "finite" if Bp is not None else ("(0:0:0)" if qs["inf"] == 2 else "(l^2:l^3:0)"))
+        ctx.check(eq == (1 if A == Bp else 0), "point_equ = %d for %s (A=%s, B=%s)" % (eq, forms, A, Bp),
+                  "pt/equ/infinity" + ("/both" if A is None and Bp is None else "/one"))
     # mixed addition: B must be affine and finite; the doubling case is outside add_affine's contract only
     # if the library documents so - it does not, so A == B is kept and judged by the group law
     if Bp is not None:
